@@ -27,12 +27,24 @@ def _concat(sc, files, name):
     return p
 
 
+def _model(sc, mod, cfg, heap):
+    """V.model_check with a per-run heap cap."""
+    res = V.run_tlc(sc, SPEC, mod, cfg, workers=4, timeout=2400, env_extra=heap)
+    if res["violated"]:
+        raise V.Broken("model %s/%s violates %s - the specification itself is inconsistent:\n%s" %
+                       (SPEC, cfg, res["violated"], "\n".join(res["out"].splitlines()[-60:])))
+    V.log("model %s/%s: %d states, %d distinct, %.1fs" % (SPEC, cfg, res["states"], res["distinct"], res["wall"]))
+    return res
+
+
 def run(sc, tier, seed):
     R = V.Result("C12", tier, seed)
-    # small JVMs (docs/BUILDER_GUIDE.md "machine load"): at most 2 model runs + PAR validation JVMs are alive at once
-    os.environ["JAVA_TOOL_OPTIONS"] = "-Xmx%s -XX:ParallelGCThreads=2" % ("1500m" if tier == "quick" else "6g")
-    V.build_harness()
     quick = tier == "quick"
+    par = PAR
+    # small JVMs (docs/BUILDER_GUIDE.md "machine load"): at most 2 model runs + `par` validation JVMs are alive at once
+    mheap = {"JAVA_TOOL_OPTIONS": "-Xmx%s -XX:ParallelGCThreads=2" % ("1500m" if quick else "4g")}
+    vheap = {"JAVA_TOOL_OPTIONS": "-Xmx%s -XX:ParallelGCThreads=2" % ("1500m" if quick else "2g")}
+    V.build_harness()
     # ---- design level: every interleaving x every input x every setting inside the bound ----
     t = "quick" if quick else "thorough"
     models = [
@@ -46,14 +58,24 @@ def run(sc, tier, seed):
     pool = concurrent.futures.ThreadPoolExecutor(max_workers=2)
     if os.environ.get("VERIF_C12_SKIP_MODELS"):
         models = models[:1]   # binding demonstrations on seeded changes: the design-level runs do not depend on the tree
-    futs = [(cfg, pool.submit(V.model_check, sc, SPEC, mod, cfg, 4, 2400)) for mod, cfg in models]
+    futs = [(cfg, pool.submit(_model, sc, mod, cfg, mheap)) for mod, cfg in models]
+    try:
+        return _rest(sc, tier, seed, R, futs, quick, par, vheap)
+    finally:
+        pool.shutdown(wait=False, cancel_futures=True)
+
+
+def _rest(sc, tier, seed, R, futs, quick, par, vheap):
 
     # ---- CircularQueue: exported, driven directly ----
     out, meta = V.run_driver(sc, "c12cq", tier, seed)
     R.add_meta(meta)
-    val = V.validate_traces(sc, SPEC, "CircularQueueTrace.tla", "CircularQueueTrace.cfg", meta["trace_files"], parallel=PAR)
-    R.states += val["states"]
-    R.handle_validation(val, "CircularQueue observation (Len/Peek) not explained by CircularQueue.tla")
+    # quick: one pass over everything; thorough: one pass per trace file (bounded memory per JVM)
+    cqsets = [[_concat(sc, meta["trace_files"], "cq.ndjson")]] if quick else [[f] for f in meta["trace_files"]]
+    for fs in cqsets:
+        val = V.validate_traces(sc, SPEC, "CircularQueueTrace.tla", "CircularQueueTrace.cfg", fs, parallel=par, env_extra=vheap)
+        R.states += val["states"]
+        R.handle_validation(val, "CircularQueue observation (Len/Peek) not explained by CircularQueue.tla")
 
     # ---- B3: real join/union tasks under forced arrival orders ----
     out2, meta2 = V.run_driver(sc, "c12", tier, seed)
@@ -63,13 +85,13 @@ def run(sc, tier, seed):
     allf = _concat(sc, plain, "joinunion.ndjson")
     # barrier runs (wall-clock driven barrier nodes upstream) are validated at verdict level only
     vfiles = [allf, _concat(sc, barr, "barrier.ndjson")] if barr else [allf]
-    val2 = V.validate_traces(sc, SPEC, "JoinUnionTrace.tla", "JoinUnionTrace.cfg", vfiles, parallel=PAR)
+    val2 = V.validate_traces(sc, SPEC, "JoinUnionTrace.tla", "JoinUnionTrace.cfg", vfiles, parallel=par, env_extra=vheap)
     R.states += val2["states"]
     R.handle_validation(val2, "join/union outputs differ from the schedule-free reference")
     # drift level: the same traces stepped through the code-shaped models (never a verdict)
     drift = []
     if val2["accepted"]:
-        val3 = V.validate_traces(sc, SPEC, "JoinUnionTrace.tla", "JoinUnionImplTrace.cfg", [allf], parallel=PAR)
+        val3 = V.validate_traces(sc, SPEC, "JoinUnionTrace.tla", "JoinUnionImplTrace.cfg", [allf], parallel=par, env_extra=vheap)
         R.states += val3["states"]
         for fp, line_no, res in val3["rejections"]:
             seg, _ = V.segment_of(fp, line_no)
@@ -81,7 +103,6 @@ def run(sc, tier, seed):
         res = f.result()
         R.add_model(res)
         per_model[cfg] = {"distinct": res["distinct"], "generated": res["states"], "wall_s": round(res["wall"], 1)}
-    pool.shutdown()
     return R.finish("model_checking", ASSUME, {"model_runs": per_model, "impl_drift": drift[:5], "impl_drift_count": len(drift)})
 
 
